@@ -159,6 +159,19 @@ pub fn evaluate(prog: &Arc<Program>, prop: &str, cross: bool) -> Evaluated {
     }
     // A panic inside the workload truncates the execution: whatever the property under check says about the rest of
     // the tree cannot hold (and correct code never panics in these workloads). C18 reports it itself.
+    // A stop of the harness itself ("harness assumption [Cxx]") is a violation only for the property the assumption stands
+    // for; for every other property the program is a harness error (the run is inconclusive, not an alarm).
+    if let Some((op, msg)) = &a.panicked {
+        if let Some(k) = msg.find("harness assumption [") {
+            let tag = &msg[k + 20..(k + 23).min(msg.len())];
+            if tag == prop {
+                let prop_static: &'static str = ALL_PROPS.iter().copied().find(|p| *p == prop).unwrap_or("C18");
+                violations.push(Violation::new(prop_static, format!("{prop}/registration-did-not-get-its-own-system"), format!("op {op}: {msg}"), a.end_pos));
+                return Evaluated { violations, cover, shape: shape_hash(&ex.trace), events: ex.trace.len(), runs: a.runs.len(), cross: vec![] };
+            }
+            panic!("{}", &msg[k..]);
+        }
+    }
     if let (Some((op, msg)), true) = (&a.panicked, prop != "C18") {
         let short: String = msg.chars().take(60).map(|c| if c.is_ascii_digit() { '#' } else { c }).collect();
         let prop_static: &'static str = ALL_PROPS.iter().copied().find(|p| *p == prop).unwrap_or("C18");
